@@ -45,6 +45,32 @@ func c30Gen(t *rapid.T) c30Case {
 				cc.P = append(cc.P, p)
 			}
 		}
+		// %prec markers on a few alternatives (only where no `-> Node` follows: the marker is a
+		// rule part): on empty alternatives, with the rule's first terminal, with any terminal of a
+		// precedence group
+		var precTerms []int
+		for _, p := range cc.P {
+			precTerms = append(precTerms, p.Terms...)
+		}
+		for ni, nt := range cc.C17.G.NTs {
+			for ai, a := range nt.Alts {
+				if a.Node != "" || len(precTerms) == 0 || rapid.IntRange(0, 3).Draw(t, "rulePrec") != 0 {
+					continue
+				}
+				term := precTerms[rapid.IntRange(0, len(precTerms)-1).Draw(t, "precTerm")]
+				if len(a.Parts) > 1 && a.Parts[0].K == "t" && rapid.Bool().Draw(t, "firstTerm") {
+					for _, pt := range precTerms {
+						if pt == a.Parts[0].Sym {
+							term = pt
+						}
+					}
+				}
+				if cc.C17.RulePrec == nil {
+					cc.C17.RulePrec = map[string]int{}
+				}
+				cc.C17.RulePrec[fmt.Sprintf("%d:%d", ni, ai)] = term
+			}
+		}
 	}
 	return cc
 }
